@@ -409,6 +409,63 @@ def reads_with_flag(ctx):
                 ctx.ob('R12.4r', '%s:single_match-only-in-fast-mode' % f.name, ok, f.loc(n),
                        'SINGLE_MATCH shortcut taken only in fast mode' if ok else
                        'SINGLE_MATCH shortcut taken without SCAN_FLAGS_FAST_MODE')
+                # what lets the shortcut skip the verification: besides the two flags, the
+                # chain may rest only on a confirmed match of this very string being recorded
+                # (context->matches[string->idx].head); any other evidence - a candidate in the
+                # unconfirmed list, another string's matches - can be withdrawn later
+                top = None
+                for a in f.ancestors(n):
+                    if a['k'] == 'bin' and a['op'] == '&&':
+                        top = a
+                if top is None:
+                    continue
+                from .C14 import canon
+                sroot = canon(f, f.kid(l, 0))
+                conj, stack = [], [top]
+                while stack:
+                    x = cu.strip_casts(f, stack.pop())
+                    if x is not None and x['k'] == 'bin' and x['op'] == '&&':
+                        stack.extend([f.kid(x, 1), f.kid(x, 0)])
+                    elif x is not None:
+                        conj.append(x)
+                evid = [x for x in conj if not any(
+                    y['k'] == 'bin' and y['op'] == '&' and cu.const_of(cu.strip_casts(f, f.kid(y, 1))) in (sm, fast)
+                    for y in f.walk(x))]
+                bad = []
+                for x in evid:
+                    dis, st2 = [], [x]
+                    while st2:
+                        y = cu.strip_casts(f, st2.pop())
+                        if y is not None and y['k'] == 'bin' and y['op'] == '||':
+                            st2.extend([f.kid(y, 1), f.kid(y, 0)])
+                        elif y is not None:
+                            dis.append(y)
+                    for y in dis:
+                        t = canon(f, y)
+                        m = None
+                        if y['k'] == 'bin' and y['op'] == '!=' and cu.const_of(cu.strip_casts(f, f.kid(y, 1))) == 0:
+                            m = cu.strip_casts(f, f.kid(y, 0))
+                        elif y['k'] == 'member':
+                            m = y
+                        good = False
+                        if m is not None and m['k'] == 'member' and m['fld'] == 'head':
+                            b = cu.strip_casts(f, f.kid(m, 0))
+                            if b is not None and b['k'] == 'sub':
+                                arr = cu.strip_casts(f, f.kid(b, 0))
+                                idx = canon(f, f.kid(b, 1))
+                                good = arr is not None and arr['k'] == 'member' and arr['fld'] == 'matches' and \
+                                    idx == '%s->idx' % sroot
+                        if not good:
+                            bad.append((y, t))
+                ok = bool(evid) and not bad
+                ctx.ob('R12.4r', '%s:single_match-shortcut-on-confirmed-match' % f.name, ok,
+                       f.loc(bad[0][0]) if bad else f.loc(n),
+                       'fast mode skips a SINGLE_MATCH string only once matches[%s->idx].head is set' % sroot
+                       if ok else
+                       'fast mode skips the verification of a SINGLE_MATCH string on %s: only a confirmed '
+                       'match of the same string (matches[%s->idx].head != NULL) makes further matches '
+                       'irrelevant; with -f the rule can lose a match it has in a normal scan' % (
+                           bad[0][1][:80] if bad else 'no evidence at all', sroot))
     ctx.require(n_reads >= 2 or ctx.fixture, 'R12.4r: shortcut readers not found')
 
 
